@@ -36,7 +36,7 @@ NSHARDS = {'quick': 16, 'thorough': 16}
 def required_cells(tier):
     return ['functions-match', 'body-lines-equal', 'want-comments-equal', 'star-import-removed',
             'star-import-nested-removed', 'dump-compiles', 'disabled-omitted',
-            'two-blocks', 'multi-line-want', 'cli', 'kind:mlstr', 'kind:deco', 'kind:await', 'kind:comment']
+            'two-blocks', 'multi-line-want', 'cli', 'kind:mlstr', 'kind:deco', 'kind:await', 'kind:comment', 'kind:mlstr_trailing']
 
 
 AWAIT_ERRORS = ("'await' outside async function", "'async with' outside async function",
@@ -145,7 +145,9 @@ def split_body(lines, exp_wants):
 
 
 def norm_code(lines):
-    return [ln.strip() for ln in lines if ln.strip()]
+    # leading blanks are not compared (the conversion re-indents), trailing ones are: inside a string literal they
+    # are part of the value
+    return [ln.lstrip() for ln in lines if ln.strip()]
 
 
 def check_dump_text(ctx, text, expect, modname, src, case, via):
